@@ -1,9 +1,17 @@
 // C15 driver: request URL construction.  For every base URL of the context-path grammar x encoded resource paths x
-// queries it asks the REAL client code (restli.NewGetRequest / NewDeleteRequest / NewJsonRequest with a
-// SimpleHostnameResolver, both module generations) for the *http.Request and records its URL; it evaluates the
-// property's own predicate on the implementation (scheme and host kept, escaped path = context + resource path with the
-// root segment once at the junction, path and query byte-identical to the encoders' output) and writes the cases for the
-// Coq model (Corr/C15Corr.v).
+// queries it asks the REAL client code (restli.NewGetRequest / NewDeleteRequest / NewJsonRequest, both module
+// generations) for the *http.Request and records its URL; it evaluates the property's own predicate on the implementation
+// (scheme and host kept, escaped path = context + resource path with the root segment once at the junction, path and
+// query byte-identical to the encoders' output) and writes the cases for the Coq model (Corr/C15Corr.v).
+//
+// Requests are made in HISTORIES on long-lived clients (type session): one *Client, one resolver (the real
+// SimpleHostnameResolver handing out one *url.URL for the client's lifetime; a table resolver keeping one long-lived
+// *url.URL per base, several bases behind one client; a resolver answering a fresh *url.URL each time; the client's
+// HostnameResolver field REPLACED by another SimpleHostnameResolver between requests), one QueryTunnellingThreshold.  Every request of a history is a case of its own: its URL must be what the property says of
+// that request ALONE (and what the model computes for it alone), and it must equal the URL a brand-new client builds for
+// the same request (signature history-dependent).  The description of a case lists the earlier requests of its client, so
+// that a replay re-issues the whole history.  Tunnelled requests (threshold > 0, query longer): C14 owns method, headers
+// and body; the URL - same scheme, host and escaped path, no query - is checked here.
 package main
 
 import (
@@ -41,51 +49,83 @@ func (emptyRecordRoot) MarshalRestLi(w rootcodec.Writer) error {
 	return w.WriteMap(func(func(string) rootcodec.Writer) error { return nil })
 }
 
+// what the driver's own resolvers answer: the *url.URL chosen by the session for the request at hand
+type drvResolver struct {
+	next  *url.URL
+	calls int
+	root  string
+}
+
+func (r *drvResolver) ResolveHostnameAndContextForQuery(root string, _ *url.URL) (*url.URL, error) {
+	r.calls++
+	r.root = root
+	return r.next, nil
+}
+
+// one request on an existing client
+type clientFn func(root, rpath string, hasQuery bool, query string, entry int) (*http.Request, error)
+
 type module struct {
-	name       string
-	v2         bool
-	request    func(base *url.URL, root, rpath string, hasQuery bool, query string, entry int) (*http.Request, error)
+	name string
+	v2   bool
+	// simple != nil: the real SimpleHostnameResolver{Hostname: simple}; otherwise the driver's resolver dr.  The second result
+	// REPLACES the HostnameResolver of the same client by a new SimpleHostnameResolver (resolver kind "swap")
+	newClient  func(simple *url.URL, dr *drvResolver, threshold int) (clientFn, func(*url.URL))
 	pathEscape func(string) string
 	qEscape    func(string) string
 }
 
 var modules = []module{
-	{"v2", true, func(base *url.URL, root, rpath string, hasQuery bool, query string, entry int) (*http.Request, error) {
-		c := &v2restli.Client{Client: http.DefaultClient, HostnameResolver: &v2restli.SimpleHostnameResolver{Hostname: base}}
-		var q v2restli.QueryParamsEncoder
-		if hasQuery {
-			q = v2restli.QueryParamsString(query)
+	{"v2", true, func(simple *url.URL, dr *drvResolver, threshold int) (clientFn, func(*url.URL)) {
+		c := &v2restli.Client{Client: http.DefaultClient, QueryTunnellingThreshold: threshold}
+		if simple != nil {
+			c.HostnameResolver = &v2restli.SimpleHostnameResolver{Hostname: simple}
+		} else {
+			c.HostnameResolver = dr
 		}
-		rp := rpV2{root, rpath}
-		switch entry {
-		case 1:
-			return v2restli.NewDeleteRequest(c, context.Background(), rp, q, v2restli.Method_delete)
-		case 2:
-			return v2restli.NewJsonRequest(c, context.Background(), rp, q, http.MethodPut, v2restli.Method_update, emptyRecordV2{}, nil)
-		}
-		return v2restli.NewGetRequest(c, context.Background(), rp, q, v2restli.Method_get)
+		return func(root, rpath string, hasQuery bool, query string, entry int) (*http.Request, error) {
+			var q v2restli.QueryParamsEncoder
+			if hasQuery {
+				q = v2restli.QueryParamsString(query)
+			}
+			rp := rpV2{root, rpath}
+			switch entry {
+			case 1:
+				return v2restli.NewDeleteRequest(c, context.Background(), rp, q, v2restli.Method_delete)
+			case 2:
+				return v2restli.NewJsonRequest(c, context.Background(), rp, q, http.MethodPut, v2restli.Method_update, emptyRecordV2{}, nil)
+			}
+			return v2restli.NewGetRequest(c, context.Background(), rp, q, v2restli.Method_get)
+		}, func(b *url.URL) { c.HostnameResolver = &v2restli.SimpleHostnameResolver{Hostname: b} }
 	}, v2codec.Ror2PathEscape, v2codec.Ror2QueryEscape},
-	{"root", false, func(base *url.URL, root, rpath string, hasQuery bool, query string, entry int) (*http.Request, error) {
-		c := &rootrestli.Client{Client: http.DefaultClient, HostnameResolver: &rootrestli.SimpleHostnameResolver{Hostname: base}}
-		var q rootrestli.QueryParamsEncoder
-		if hasQuery {
-			q = rootrestli.QueryParamsString(query)
+	{"root", false, func(simple *url.URL, dr *drvResolver, threshold int) (clientFn, func(*url.URL)) {
+		c := &rootrestli.Client{Client: http.DefaultClient, QueryTunnellingThreshold: threshold}
+		if simple != nil {
+			c.HostnameResolver = &rootrestli.SimpleHostnameResolver{Hostname: simple}
+		} else {
+			c.HostnameResolver = dr
 		}
-		rp := rpV2{root, rpath}
-		switch entry {
-		case 1:
-			return rootrestli.NewDeleteRequest(c, context.Background(), rp, q, rootrestli.Method_delete)
-		case 2:
-			return rootrestli.NewJsonRequest(c, context.Background(), rp, q, http.MethodPut, rootrestli.Method_update, emptyRecordRoot{}, nil)
-		}
-		return rootrestli.NewGetRequest(c, context.Background(), rp, q, rootrestli.Method_get)
+		return func(root, rpath string, hasQuery bool, query string, entry int) (*http.Request, error) {
+			var q rootrestli.QueryParamsEncoder
+			if hasQuery {
+				q = rootrestli.QueryParamsString(query)
+			}
+			rp := rpV2{root, rpath}
+			switch entry {
+			case 1:
+				return rootrestli.NewDeleteRequest(c, context.Background(), rp, q, rootrestli.Method_delete)
+			case 2:
+				return rootrestli.NewJsonRequest(c, context.Background(), rp, q, http.MethodPut, rootrestli.Method_update, emptyRecordRoot{}, nil)
+			}
+			return rootrestli.NewGetRequest(c, context.Background(), rp, q, rootrestli.Method_get)
+		}, func(b *url.URL) { c.HostnameResolver = &rootrestli.SimpleHostnameResolver{Hostname: b} }
 	}, rootcodec.Ror2PathEscape, rootcodec.Ror2QueryEscape},
 }
 
 // ---- the case
 
-type caseDesc struct {
-	Module    string   `json:"module"`
+// the inputs of one request (what a history lists)
+type ReqIn struct {
 	Scheme    string   `json:"scheme"`
 	Host      string   `json:"host"`
 	Bp        string   `json:"bp"`                // escaped context path text
@@ -100,17 +140,34 @@ type caseDesc struct {
 	HasQuery  bool     `json:"has_query"`
 	Query     string   `json:"query"`
 	Entry     int      `json:"entry"` // 0 NewGetRequest, 1 NewDeleteRequest, 2 NewJsonRequest(PUT)
+}
+
+type caseDesc struct {
+	Module string `json:"module"`
+	// the long-lived client this request was made on
+	Threshold int     `json:"threshold"`          // Client.QueryTunnellingThreshold
+	Resolver  string  `json:"resolver,omitempty"` // simple (default) | table | fresh | swap
+	History   []ReqIn `json:"history,omitempty"`  // the requests made EARLIER on the same client, in order
+	ReqIn
 	// results
-	InGrammar bool   `json:"in_grammar"`
-	CtxSpec   string `json:"ctx_spec"`
-	Ok        bool   `json:"ok"`
-	String    string `json:"string,omitempty"`
-	EPath     string `json:"escaped_path,omitempty"`
-	RawQuery  string `json:"raw_query,omitempty"`
-	OScheme   string `json:"o_scheme,omitempty"`
-	OHost     string `json:"o_host,omitempty"`
-	OPath     string `json:"o_path,omitempty"`
-	Force     bool   `json:"force_query,omitempty"`
+	InGrammar  bool   `json:"in_grammar"`
+	CtxSpec    string `json:"ctx_spec"`
+	TunnelSpec bool   `json:"tunnel_spec"` // threshold > 0 and the query is longer
+	Obs
+}
+
+// the observables of the request that was built
+type Obs struct {
+	Ok       bool   `json:"ok"`
+	String   string `json:"string,omitempty"`
+	EPath    string `json:"escaped_path,omitempty"`
+	RawQuery string `json:"raw_query,omitempty"`
+	OScheme  string `json:"o_scheme,omitempty"`
+	OHost    string `json:"o_host,omitempty"`
+	OPath    string `json:"o_path,omitempty"`
+	Force    bool   `json:"force_query,omitempty"`
+	Method   string `json:"http_method,omitempty"` // informative (C14 owns it)
+	Panicked bool   `json:"panicked,omitempty"`
 }
 
 // ---- the oracle's own predicates (independent of the code under test)
@@ -202,7 +259,7 @@ func alphabetsOf(m *module) *alphabets {
 	return a
 }
 
-func inGrammar(a *alphabets, d *caseDesc) bool {
+func inGrammar(a *alphabets, d *ReqIn) bool {
 	if !d.Rendered || d.HandBuilt {
 		return false
 	}
@@ -243,7 +300,7 @@ func coqURL(u *url.URL) string {
 		hx.CoqBytes(u.RawQuery), hx.CoqBool(u.OmitHost))
 }
 
-func baseText(d *caseDesc) string {
+func baseText(d *ReqIn) string {
 	t := ""
 	if d.Scheme != "" {
 		t += d.Scheme + ":"
@@ -254,50 +311,169 @@ func baseText(d *caseDesc) string {
 	return t + d.Bp
 }
 
-func runCase(m *module, a *alphabets, d caseDesc, rep *hx.Report, sh *hx.Shards) {
-	d.Module = m.name
-	var base *url.URL
+// builds the *url.URL value a resolver hands out for this request ("" = fine)
+func buildBase(d *ReqIn) (*url.URL, string) {
 	if d.HandBuilt {
-		base = &url.URL{Scheme: d.Scheme, Host: d.Host, Path: d.HbPath, RawPath: d.HbRaw}
-	} else {
-		var err error
-		base, err = url.Parse(baseText(&d))
-		if err != nil || base.User != nil || base.Opaque != "" || base.Fragment != "" || base.RawQuery != "" {
-			rep.Count("skipped:base-not-parseable")
-			return
-		}
-		if base.Scheme != d.Scheme || base.Host != d.Host || (d.Scheme == "" && d.Host == "" && strings.HasPrefix(d.Bp, "//") && !strings.HasPrefix(d.Bp, "///")) {
-			rep.Count("skipped:base-parsed-differently")
-			return
-		}
+		return &url.URL{Scheme: d.Scheme, Host: d.Host, Path: d.HbPath, RawPath: d.HbRaw}, ""
 	}
-	before := *base
-	d.InGrammar = inGrammar(a, &d)
-	d.CtxSpec = ctxSpec(d.Bp, d.Root)
+	base, err := url.Parse(baseText(d))
+	if err != nil || base.User != nil || base.Opaque != "" || base.Fragment != "" || base.RawQuery != "" {
+		return nil, "skipped:base-not-parseable"
+	}
+	if base.Scheme != d.Scheme || base.Host != d.Host || (d.Scheme == "" && d.Host == "" && strings.HasPrefix(d.Bp, "//") && !strings.HasPrefix(d.Bp, "///")) {
+		return nil, "skipped:base-parsed-differently"
+	}
+	return base, ""
+}
 
+func baseKey(d *ReqIn) string {
+	k, _ := json.Marshal([]interface{}{d.Scheme, d.Host, d.Bp, d.HandBuilt, d.HbPath, d.HbRaw})
+	return string(k)
+}
+
+func issue(f clientFn, d *ReqIn) (o Obs) {
 	var req *http.Request
 	var err error
-	panicked := false
 	func() {
 		defer func() {
 			if r := recover(); r != nil {
-				panicked = true
+				o.Panicked = true
 			}
 		}()
-		req, err = m.request(base, d.Root, d.Rpath, d.HasQuery, d.Query, d.Entry)
+		req, err = f(d.Root, d.Rpath, d.HasQuery, d.Query, d.Entry)
 	}()
+	if o.Panicked {
+		return
+	}
+	o.Ok = err == nil
+	if err == nil {
+		u := req.URL
+		o.String, o.EPath, o.RawQuery, o.OScheme, o.OHost, o.OPath, o.Force, o.Method = u.String(), u.EscapedPath(), u.RawQuery, u.Scheme, u.Host, u.Path, u.ForceQuery, req.Method
+	}
+	return
+}
+
+// ---- a long-lived client and the history of requests made on it
+type session struct {
+	m         *module
+	a         *alphabets
+	threshold int
+	resolver  string // simple | table | fresh | swap
+	client    clientFn
+	setSimple func(*url.URL)
+	dr        *drvResolver
+	simpleKey string
+	pool      map[string]*url.URL // table: the long-lived *url.URL of each base
+	history   []ReqIn
+}
+
+func newSession(m *module, a *alphabets, resolver string, threshold int) *session {
+	if resolver == "" {
+		resolver = "simple"
+	}
+	s := &session{m: m, a: a, threshold: threshold, resolver: resolver, pool: map[string]*url.URL{}}
+	if resolver == "table" || resolver == "fresh" {
+		s.dr = &drvResolver{}
+		s.client, s.setSimple = m.newClient(nil, s.dr, threshold)
+	}
+	return s
+}
+
+// the *url.URL the session's resolver answers for this request
+func (s *session) baseFor(d *ReqIn) (*url.URL, string) {
+	key := baseKey(d)
+	switch s.resolver {
+	case "simple":
+		if s.client != nil {
+			if key != s.simpleKey {
+				panic("c15 driver: a session on a SimpleHostnameResolver has ONE base URL")
+			}
+			return s.pool[key], ""
+		}
+		base, skip := buildBase(d)
+		if base == nil {
+			return nil, skip
+		}
+		s.simpleKey, s.pool[key] = key, base
+		s.client, s.setSimple = s.m.newClient(base, nil, s.threshold)
+		return base, ""
+	case "swap":
+		// the SAME client gets another SimpleHostnameResolver (on a new *url.URL) before every request
+		base, skip := buildBase(d)
+		if base == nil {
+			return nil, skip
+		}
+		if s.client == nil {
+			s.client, s.setSimple = s.m.newClient(base, nil, s.threshold)
+		} else {
+			s.setSimple(base)
+		}
+		return base, ""
+	case "table":
+		if b, ok := s.pool[key]; ok {
+			s.dr.next = b
+			return b, ""
+		}
+		base, skip := buildBase(d)
+		if base == nil {
+			return nil, skip
+		}
+		s.pool[key] = base
+		s.dr.next = base
+		return base, ""
+	default: // fresh
+		base, skip := buildBase(d)
+		if base != nil {
+			s.dr.next = base
+		}
+		return base, skip
+	}
+}
+
+func (s *session) run(in ReqIn, rep *hx.Report, sh *hx.Shards) {
+	m, a := s.m, s.a
+	d := caseDesc{Module: m.name, Threshold: s.threshold, Resolver: s.resolver, ReqIn: in}
+	d.History = append([]ReqIn{}, s.history...)
+	base, skip := s.baseFor(&d.ReqIn)
+	if base == nil {
+		rep.Count(skip)
+		return
+	}
+	before := *base
+	d.InGrammar = inGrammar(a, &d.ReqIn)
+	d.CtxSpec = ctxSpec(d.Bp, d.Root)
+	d.TunnelSpec = d.Threshold > 0 && d.HasQuery && len(d.Query) > d.Threshold
+
+	if s.dr != nil {
+		s.dr.calls, s.dr.root = 0, ""
+	}
+	d.Obs = issue(s.client, &d.ReqIn)
+	s.history = append(s.history, in)
 	rep.Evaluations++
-	if panicked {
+	if d.Panicked {
 		rep.Fail("panic", "building the request panicked", site, d, nil)
 		return
 	}
 	if *base != before {
 		rep.Fail("resolver-url-mutated", "the *url.URL returned by the hostname resolver was modified", site, d, nil)
 	}
-	d.Ok = err == nil
-	if err == nil {
-		u := req.URL
-		d.String, d.EPath, d.RawQuery, d.OScheme, d.OHost, d.OPath, d.Force = u.String(), u.EscapedPath(), u.RawQuery, u.Scheme, u.Host, u.Path, u.ForceQuery
+	if s.dr != nil && d.Ok && (s.dr.calls != 1 || s.dr.root != d.Root) {
+		rep.Fail("resolver-asked-wrongly", "the hostname resolver is not asked exactly once, for the root resource of the resource path", site, d,
+			map[string]interface{}{"calls": s.dr.calls, "root": s.dr.root})
+	}
+	err := !d.Ok
+
+	// ---- history independence, evaluated on the implementation: a brand-new client with a brand-new base URL value builds
+	// the same URL for this request (inside and outside the grammar)
+	if len(d.History) > 0 {
+		if fb, _ := buildBase(&d.ReqIn); fb != nil {
+			nc, _ := m.newClient(fb, nil, s.threshold)
+			alone := issue(nc, &d.ReqIn)
+			if alone != d.Obs {
+				rep.Fail("history-dependent", "the URL of a request depends on the requests made earlier on the same client: a new client builds another URL for the same request", site, d,
+					map[string]interface{}{"after_the_history": d.Obs, "alone_on_a_new_client": alone})
+			}
+		}
 	}
 
 	// ---- the property's own predicate, evaluated on the implementation
@@ -311,18 +487,23 @@ func runCase(m *module, a *alphabets, d caseDesc, rep *hx.Report, sh *hx.Shards)
 			wantString += "//" + d.Host
 		}
 		wantString += want
-		if d.HasQuery {
+		wantQuery := d.HasQuery && !d.TunnelSpec // the encoder's query is expected in the URL
+		if wantQuery {
 			wantString += "?" + d.Query
 		}
+		tun := ""
+		if d.TunnelSpec {
+			tun = "tunnelled:"
+		}
 		switch {
-		case err != nil:
+		case err:
 			rep.Fail("error", "a request for a base URL / resource path of the grammar could not be built", site, d, nil)
 		default:
 			if d.OScheme != d.Scheme {
-				rep.Fail("scheme-changed", "the request URL does not keep the resolver's scheme", site, d, d.String)
+				rep.Fail(tun+"scheme-changed", "the request URL does not keep the resolver's scheme", site, d, d.String)
 			}
 			if d.OHost != d.Host {
-				rep.Fail("host-changed", "the request URL does not keep the resolver's host", site, d, d.String)
+				rep.Fail(tun+"host-changed", "the request URL does not keep the resolver's host", site, d, d.String)
 			}
 			if d.EPath != want {
 				sig, what := "path-wrong", "the escaped path is not context + resource path"
@@ -336,20 +517,27 @@ func runCase(m *module, a *alphabets, d caseDesc, rep *hx.Report, sh *hx.Shards)
 				case strings.HasPrefix(d.EPath, d.CtxSpec) && len(d.EPath) < len(want):
 					sig, what = "path-normalised", "the encoded resource path was decoded or normalised (dot segments, slashes) on its way to the wire"
 				}
-				rep.Fail(sig, what, site, d, d.EPath)
+				if d.TunnelSpec {
+					what += " (tunnelled request: the query is in the body, the URL must still be the resource's)"
+				}
+				rep.Fail(tun+sig, what, site, d, d.EPath)
 			}
-			if d.RawQuery != d.Query && d.HasQuery {
+			if wantQuery && d.RawQuery != d.Query {
 				sig := "query-changed"
 				if d.RawQuery == "" {
 					sig = "query-lost"
 				}
 				rep.Fail(sig, "the encoded query does not reach the wire byte for byte", site, d, d.RawQuery)
 			}
+			if d.TunnelSpec && (d.RawQuery != "" || d.Force) {
+				rep.Fail("tunnelled:query-left-in-url", "a request whose query is longer than the tunnelling threshold still carries a query in its URL", site, d, d.RawQuery)
+			}
 			if !d.HasQuery && (d.RawQuery != "" || d.Force) {
 				rep.Fail("query-invented", "a request without query parameters got a query", site, d, d.RawQuery)
 			}
-			if d.String != wantString && d.OScheme == d.Scheme && d.OHost == d.Host && d.EPath == want && (d.RawQuery == d.Query || !d.HasQuery) {
-				rep.Fail("string-wrong", "URL.String() is not scheme://host + context + path + ?query", site, d, d.String)
+			queryOk := (wantQuery && d.RawQuery == d.Query) || (!wantQuery && d.RawQuery == "" && !d.Force)
+			if d.String != wantString && d.OScheme == d.Scheme && d.OHost == d.Host && d.EPath == want && queryOk {
+				rep.Fail(tun+"string-wrong", "URL.String() is not scheme://host + context + path + ?query", site, d, d.String)
 			}
 			// root exactly once at the junction: no complete root segment in the context that was kept
 			for _, s := range strings.Split(d.CtxSpec, "/") {
@@ -368,6 +556,31 @@ func runCase(m *module, a *alphabets, d caseDesc, rep *hx.Report, sh *hx.Shards)
 	rep.Count(fmt.Sprintf("trailing_slash=%v", d.Trailing))
 	rep.Count(fmt.Sprintf("scheme=%v,host=%v", d.Scheme != "", d.Host != ""))
 	rep.Count(fmt.Sprintf("entry=%d", d.Entry))
+	rep.Count("resolver=" + s.resolver)
+	rep.Count(fmt.Sprintf("history_length=%d", imin(len(d.History), 6)))
+	switch {
+	case d.Threshold <= 0:
+		rep.Count("tunnelling=off")
+	case d.TunnelSpec:
+		rep.Count("tunnelling=on,tunnelled")
+		if d.InGrammar && strings.ContainsAny(strings.TrimPrefix(d.Rpath, "/"+d.Root), "()'*!%") {
+			rep.Count("tunnelled:path-needs-rawpath")
+		}
+	default:
+		rep.Count("tunnelling=on,not-tunnelled")
+	}
+	if n := len(d.History); n > 0 {
+		prev := d.History[n-1]
+		if prev.Root != d.Root {
+			rep.Count("history:previous-request-other-root")
+			if baseKey(&prev) == baseKey(&d.ReqIn) && ctxSpec(d.Bp, d.Root) != ctxSpec(d.Bp, prev.Root) {
+				rep.Count("history:previous-request-other-root,same-base,other-context")
+			}
+		}
+		if baseKey(&prev) != baseKey(&d.ReqIn) {
+			rep.Count("history:previous-request-other-base")
+		}
+	}
 	switch {
 	case !d.HasQuery:
 		rep.Count("query=none")
@@ -390,7 +603,7 @@ func runCase(m *module, a *alphabets, d caseDesc, rep *hx.Report, sh *hx.Shards)
 	if d.HandBuilt {
 		rep.Count("base:hand-built")
 	}
-	key, _ := json.Marshal([]interface{}{m.name, d.Scheme, d.Host, d.Bp, d.HandBuilt, d.HbPath, d.HbRaw, d.Root, d.Rpath, d.HasQuery, d.Query})
+	key, _ := json.Marshal([]interface{}{m.name, d.Threshold, d.Scheme, d.Host, d.Bp, d.HandBuilt, d.HbPath, d.HbRaw, d.Root, d.Rpath, d.HasQuery, d.Query})
 	nontrivial := d.InGrammar && len(d.Segs) > 0 && len(d.Rpath) > len(d.Root)+1
 	rep.Distinct(string(key), nontrivial)
 	if nontrivial && d.HasQuery && strings.Contains(d.Rpath, "%") && d.Bp != d.CtxSpec {
@@ -405,8 +618,8 @@ func runCase(m *module, a *alphabets, d caseDesc, rep *hx.Report, sh *hx.Shards)
 	obs := fmt.Sprintf("{| o_ok := %s; o_string := %s; o_epath := %s; o_rawquery := %s; o_scheme := %s; o_host := %s; o_path := %s; o_force := %s |}",
 		hx.CoqBool(d.Ok), hx.CoqBytes(d.String), hx.CoqBytes(d.EPath), hx.CoqBytes(d.RawQuery), hx.CoqBytes(d.OScheme), hx.CoqBytes(d.OHost),
 		hx.CoqBytes(d.OPath), hx.CoqBool(d.Force))
-	sh.Add(fmt.Sprintf("{| c_v2 := %s; c_base := %s; c_parsed := %s; c_bp := %s; c_segs := %s; c_root := %s; c_rpath := %s; c_query := %s; c_in_grammar := %s; c_ctx_spec := %s; c_obs := %s |}",
-		hx.CoqBool(m.v2), coqURL(&before), hx.CoqBool(!d.HandBuilt), hx.CoqBytes(d.Bp), segs, hx.CoqBytes(d.Root), hx.CoqBytes(d.Rpath),
+	sh.Add(fmt.Sprintf("{| c_v2 := %s; c_threshold := %s; c_tunnel_spec := %s; c_base := %s; c_parsed := %s; c_bp := %s; c_segs := %s; c_root := %s; c_rpath := %s; c_query := %s; c_in_grammar := %s; c_ctx_spec := %s; c_obs := %s |}",
+		hx.CoqBool(m.v2), hx.CoqZ(int64(d.Threshold)), hx.CoqBool(d.TunnelSpec), coqURL(&before), hx.CoqBool(!d.HandBuilt), hx.CoqBytes(d.Bp), segs, hx.CoqBytes(d.Root), hx.CoqBytes(d.Rpath),
 		coqOptBytes(d.HasQuery, d.Query), hx.CoqBool(d.InGrammar), hx.CoqBytes(d.CtxSpec), obs), d)
 }
 
@@ -488,15 +701,36 @@ func queries(m *module) []struct {
 
 var foreignQueries = []string{"a=b c", "a=\"x\"", "?", "??", "a=é", "a=%zz"}
 
+func imin(a, b int) int {
+	if a < b {
+		return a
+	}
+	return b
+}
+
+// roots of the history scenarios: exactly the segment kinds of the context grammar, so that a context ending in one of them
+// ends in the name of a root resource the same client also serves
+var histRoots = []string{"coll", "collx", "col", "api"}
+
+// key classes in the path of the history / tunnelling scenarios (after "/root")
+func keyTails(m *module) []string {
+	return []string{"", "/1", "/(a:1,b:'')", "/''", "/" + m.pathEscape("a/b"), "/..", "/a*b!", "/1/sub/2", "/" + m.pathEscape("x y"), "/(k:(x:1,y:List(a,b)),$params:(p:%2E))/sub"}
+}
+
 func main() {
 	cfg := hx.ParseFlags()
-	rep := hx.NewReport("base URLs: exhaustive over contexts of 0-3 segments drawn from {root, root-with-suffix, prefix-of-root, other} (root in a non-final position included: " +
+	rep := hx.NewReport("requests are made in HISTORIES on long-lived clients (one *Client per session: real SimpleHostnameResolver / table resolver with one long-lived *url.URL per base / " +
+		"fresh *url.URL per request / the client's resolver replaced between requests; QueryTunnellingThreshold rotating over off, 1, 12, 40, 150); every request is checked alone and against a new client. " +
+		"base URLs: exhaustive over contexts of 0-3 segments drawn from {root, root-with-suffix, prefix-of-root, other} (root in a non-final position included: " +
 		"outside the grammar, model comparison only), x trailing slash x 5 scheme/host combinations, plus contexts with encoded / sub-delim / dot segments, " +
 		"plus hand-built and non-grammar bases; resource paths: keys through the real Ror2PathEscape (%XX, '.', '..', '//', ';', '?', '#', every byte class) and complex keys; " +
 		"queries: none, empty, with %28, with '+', '?', long; both module generations; three entry points. quick: every base with a rotating 2-element slice of (path, query) " +
-		"plus the full product on every 211th base; thorough: 8-element slices (incl. one path per byte value) and the full product on every 29th base. non-trivial = inside the grammar AND the context has >= 1 segment AND the resource path has a key; " +
-		"distinct by all inputs")
-	header := "From Coq Require Import List. Import ListNotations.\nFrom Coq.Strings Require Import Byte.\nFrom GR Require Import Base.Bytes Http.UrlModel Http.Url Corr.C15Corr.\n"
+		"plus the full product on every 211th base; thorough: 8-element slices (incl. one path per byte value) and the full product on every 29th base. " +
+		"histories over SEVERAL root resources {coll, collx, col, api} on one client: every context of 0-2 (thorough 0-3) segments over the same four names x trailing slash, " +
+		"each root first once, the others in seeded order, the first again (bases ending or not in the name of a root resource the client serves; same base / one base per root / fresh base). " +
+		"tunnelling: every resource path x every non-empty query x thresholds {len-1, len, 1} and {-1, 0, len+1, huge} on a subset. " +
+		"non-trivial = inside the grammar AND the context has >= 1 segment AND the resource path has a key; distinct by all inputs")
+	header := "From Coq Require Import List ZArith. Import ListNotations.\nFrom Coq.Strings Require Import Byte.\nFrom GR Require Import Base.Bytes Http.UrlModel Http.Url Corr.C15Corr.\n"
 	sh := hx.NewShards(cfg.Out, header, "C15Corr", 400)
 
 	if cfg.Replay != "" {
@@ -512,7 +746,12 @@ func main() {
 		}
 		for i := range modules {
 			if modules[i].name == rp.Case.Module {
-				runCase(&modules[i], alphabetsOf(&modules[i]), rp.Case, rep, sh)
+				// the whole history on one client, then the request itself
+				s := newSession(&modules[i], alphabetsOf(&modules[i]), rp.Case.Resolver, rp.Case.Threshold)
+				for _, h := range rp.Case.History {
+					s.run(h, rep, sh)
+				}
+				s.run(rp.Case.ReqIn, rep, sh)
 			}
 		}
 		sh.Close()
@@ -528,6 +767,8 @@ func main() {
 	}
 	ctxs := contexts(3, kinds)
 	n := 0
+	thresholds := []int{0, 0, 12, 0, 1, 0, 40, 0, 150}
+	const sessionLen = 6 // requests per client in the sweeps (the history of a case is listed in its description)
 	for mi := range modules {
 		m := &modules[mi]
 		a := alphabetsOf(m)
@@ -549,23 +790,34 @@ func main() {
 		if cfg.Thorough() {
 			perBase = 8
 		}
-		runBase := func(d caseDesc, full bool) {
-			if full {
-				for _, p := range pairs {
-					d2 := d
-					d2.Root, d2.Rpath, d2.HasQuery, d2.Query, d2.Entry = root, p.rp, p.has, p.q, n%3
-					n++
-					runCase(m, a, d2, rep, sh)
+		nsess := 0
+		open := func(resolver string) *session {
+			nsess++
+			return newSession(m, a, resolver, thresholds[nsess%len(thresholds)])
+		}
+		// one client per base (a new one every sessionLen requests): the requests to one base form a history
+		runBase := func(d ReqIn, full bool) {
+			s := open("simple")
+			k := 0
+			one := func(p pq) {
+				if k > 0 && k%sessionLen == 0 {
+					s = open("simple")
 				}
-				return
-			}
-			for k := 0; k < perBase; k++ {
-				p := pairs[rot%len(pairs)]
-				rot += 7 // co-prime with the number of pairs often enough; coverage of all pairs is counted below
+				k++
 				d2 := d
 				d2.Root, d2.Rpath, d2.HasQuery, d2.Query, d2.Entry = root, p.rp, p.has, p.q, n%3
 				n++
-				runCase(m, a, d2, rep, sh)
+				s.run(d2, rep, sh)
+			}
+			if full {
+				for _, p := range pairs {
+					one(p)
+				}
+				return
+			}
+			for j := 0; j < perBase; j++ {
+				one(pairs[rot%len(pairs)])
+				rot += 7 // co-prime with the number of pairs often enough; coverage of all pairs is counted below
 			}
 		}
 		// 1. the grammar
@@ -577,7 +829,7 @@ func main() {
 		for _, hc := range hostCombos {
 			for _, segs := range ctxs {
 				for _, tr := range []bool{false, true} {
-					d := caseDesc{Scheme: hc.scheme, Host: hc.host, Segs: segs, Trailing: tr, Rendered: true, Bp: render(segs, tr)}
+					d := ReqIn{Scheme: hc.scheme, Host: hc.host, Segs: segs, Trailing: tr, Rendered: true, Bp: render(segs, tr)}
 					full := bi%fullEvery == 0
 					bi++
 					runBase(d, full)
@@ -598,12 +850,12 @@ func main() {
 			}
 			hc := hostCombos[r.Intn(len(hostCombos))]
 			tr := r.Bool()
-			runBase(caseDesc{Scheme: hc.scheme, Host: hc.host, Segs: segs, Trailing: tr, Rendered: true, Bp: render(segs, tr)}, false)
+			runBase(ReqIn{Scheme: hc.scheme, Host: hc.host, Segs: segs, Trailing: tr, Rendered: true, Bp: render(segs, tr)}, false)
 		}
 		// 3. bases outside the grammar: model comparison only
 		for _, bp := range []string{"//", "///", "/a//b", "/a//", "/coll//", "/a b", "/a%2", "/caf\xc3\xa9", "/a/{x}/coll", "/coll/coll", "/coll/x/coll/"} {
 			for _, hc := range hostCombos[:3] {
-				runBase(caseDesc{Scheme: hc.scheme, Host: hc.host, Bp: bp}, false)
+				runBase(ReqIn{Scheme: hc.scheme, Host: hc.host, Bp: bp}, false)
 			}
 		}
 		for _, hb := range []struct{ p, raw string }{{"ctx", ""}, {"ctx/coll", ""}, {"/a b/coll", ""}, {"/a/b", "/a%2Fb"}, {"/a/b", "/a%2fb"}, {"/x", "/y"}, {"*", ""}} {
@@ -612,29 +864,142 @@ func main() {
 				if bp == "" {
 					bp = hb.p
 				}
-				runBase(caseDesc{Scheme: hc.scheme, Host: hc.host, Bp: bp, HandBuilt: true, HbPath: hb.p, HbRaw: hb.raw}, false)
+				runBase(ReqIn{Scheme: hc.scheme, Host: hc.host, Bp: bp, HandBuilt: true, HbPath: hb.p, HbRaw: hb.raw}, false)
 			}
 		}
-		// 4. resource paths / queries / roots outside the premise on a few bases: model comparison only
+		// 4. resource paths / queries / roots outside the premise on a few bases: model comparison only (one client per base)
 		for _, bp := range [][]string{{}, {"api", "coll"}, {"collx"}} {
 			for _, hc := range hostCombos[:3] {
+				s := open("simple")
 				for _, fp := range foreignPaths {
 					if fp == "coll/1" {
 						continue // a relative resource path: url.Parse("coll/1") is fine but the model's grammar starts with '/'; kept below with root only
 					}
-					d := caseDesc{Scheme: hc.scheme, Host: hc.host, Segs: bp, Rendered: true, Bp: render(bp, false), Root: root, Rpath: fp, HasQuery: n%2 == 0 && !strings.Contains(fp, "#"), Query: "a=1", Entry: n % 3}
+					d := ReqIn{Scheme: hc.scheme, Host: hc.host, Segs: bp, Rendered: true, Bp: render(bp, false), Root: root, Rpath: fp, HasQuery: n%2 == 0 && !strings.Contains(fp, "#"), Query: "a=1", Entry: n % 3}
 					n++
-					runCase(m, a, d, rep, sh)
+					s.run(d, rep, sh)
 				}
 				for _, fq := range foreignQueries {
-					d := caseDesc{Scheme: hc.scheme, Host: hc.host, Segs: bp, Rendered: true, Bp: render(bp, false), Root: root, Rpath: "/coll/1", HasQuery: true, Query: fq, Entry: n % 3}
+					d := ReqIn{Scheme: hc.scheme, Host: hc.host, Segs: bp, Rendered: true, Bp: render(bp, false), Root: root, Rpath: "/coll/1", HasQuery: true, Query: fq, Entry: n % 3}
 					n++
-					runCase(m, a, d, rep, sh)
+					s.run(d, rep, sh)
 				}
+				s = open("simple")
 				for _, rt := range []string{"", "col", "coll/1", "api", "c%6Fll"} {
-					d := caseDesc{Scheme: hc.scheme, Host: hc.host, Segs: bp, Rendered: true, Bp: render(bp, true), Root: rt, Rpath: "/coll/1", HasQuery: true, Query: "a=1", Entry: n % 3}
+					d := ReqIn{Scheme: hc.scheme, Host: hc.host, Segs: bp, Rendered: true, Bp: render(bp, true), Root: rt, Rpath: "/coll/1", HasQuery: true, Query: "a=1", Entry: n % 3}
 					n++
-					runCase(m, a, d, rep, sh)
+					s.run(d, rep, sh)
+				}
+			}
+		}
+		// 5. histories over several root resources on ONE client.  The context segments are the names of the roots the client
+		// serves: every non-empty context ends in (and may hold earlier) the name of a root resource.  Each root is the FIRST
+		// request of one session; then the three others in seeded order; then the first again.
+		tails := keyTails(m)
+		hq := []struct {
+			has bool
+			q   string
+		}{{false, ""}, {true, "a=1"}, {true, ""}, {true, "ids=List(1,2,3)&fields=x"}}
+		hctx := contexts(2, kinds)
+		if cfg.Thorough() {
+			hctx = append(append([][]string{}, ctxs...), [][]string{{"a%2Fb", "coll"}, {"coll;v=1"}, {"COLL"}, {"%63oll"}, {"..", "api"}, {"collcoll"}}...)
+		}
+		resolvers := []string{"simple", "table", "simple", "fresh", "table", "swap"}
+		hi := 0
+		for _, segs := range hctx {
+			for _, tr := range []bool{false, true} {
+				hc := hostCombos[hi%len(hostCombos)]
+				base := ReqIn{Scheme: hc.scheme, Host: hc.host, Segs: segs, Trailing: tr, Rendered: true, Bp: render(segs, tr)}
+				// the table resolver's other base: the same authority, one more context segment in front and the other trailing-slash choice
+				alt := base
+				alt.Segs = append([]string{"v2"}, segs...)
+				alt.Trailing = !tr
+				alt.Bp = render(alt.Segs, alt.Trailing)
+				orders := [][]int{}
+				for first := range histRoots {
+					rest := []int{}
+					for j := range histRoots {
+						if j != first {
+							rest = append(rest, j)
+						}
+					}
+					for j := len(rest) - 1; j > 0; j-- {
+						k := r.Intn(j + 1)
+						rest[j], rest[k] = rest[k], rest[j]
+					}
+					orders = append(orders, append(append([]int{first}, rest...), first))
+				}
+				if cfg.Thorough() {
+					for x := 0; x < 2; x++ {
+						o := []int{}
+						for j := 0; j < 7; j++ {
+							o = append(o, r.Intn(len(histRoots)))
+						}
+						orders = append(orders, o)
+					}
+				}
+				for _, order := range orders {
+					res := resolvers[hi%len(resolvers)]
+					hi++
+					s := open(res)
+					for pos, ri := range order {
+						rt := histRoots[ri]
+						d := base
+						if (res == "table" || res == "swap") && hi%2 == 0 && ri%2 == 1 {
+							d = alt // this root resource lives behind another base of the same client
+						}
+						q := hq[(hi+pos)%len(hq)]
+						d.Root, d.Rpath, d.HasQuery, d.Query, d.Entry = rt, "/"+rt+tails[(hi+2*pos)%len(tails)], q.has, q.q, n%3
+						n++
+						s.run(d, rep, sh)
+					}
+				}
+			}
+		}
+		// 6. tunnelling: every resource path (every key class) x every non-empty query, threshold just below / at the length
+		// of the query on a base whose context needs the root stripped, threshold 1 on a bare host; other thresholds on a subset
+		tb := []ReqIn{
+			{Scheme: "http", Host: "example.com", Segs: []string{"api", "coll"}, Rendered: true, Bp: "/api/coll"},
+			{Scheme: "", Host: "localhost", Segs: []string{}, Rendered: true, Bp: ""},
+			{Scheme: "https", Host: "h-1.x_y~z:8080", Segs: []string{"collx", "v(1)"}, Trailing: true, Rendered: true, Bp: "/collx/v(1)/"},
+		}
+		type tcase struct {
+			base int
+			th   func(l int) int
+		}
+		sweep := []tcase{{0, func(l int) int { return l - 1 }}, {0, func(l int) int { return l }}, {1, func(int) int { return 1 }}}
+		extra := []tcase{{2, func(int) int { return -1 }}, {2, func(l int) int { return l + 1 }}, {2, func(int) int { return 1 << 40 }}, {2, func(l int) int { return l / 2 }}}
+		// sessions by (base, threshold): a client has ONE threshold
+		tsess := map[string]*session{}
+		tcount := map[string]int{}
+		trun := func(tc tcase, rp string, q string) {
+			th := tc.th(len(q))
+			key := fmt.Sprint(tc.base, ":", th)
+			if tsess[key] == nil || tcount[key]%sessionLen == 0 {
+				tsess[key] = newSession(m, a, []string{"simple", "table", "fresh"}[tc.base], th)
+			}
+			tcount[key]++
+			d := tb[tc.base]
+			d.Root, d.Rpath, d.HasQuery, d.Query, d.Entry = root, rp, true, q, n%3
+			n++
+			tsess[key].run(d, rep, sh)
+		}
+		trps := resourcePaths(m, false)
+		for _, t := range tails[1:] {
+			trps = append(trps, "/"+root+t)
+		}
+		for pi, rp := range trps {
+			for qi, q := range qs {
+				if !q.has || q.q == "" {
+					continue
+				}
+				for _, tc := range sweep {
+					trun(tc, rp, q.q)
+				}
+				if cfg.Thorough() || (pi+qi)%6 == 0 {
+					for _, tc := range extra {
+						trun(tc, rp, q.q)
+					}
 				}
 			}
 		}
